@@ -1577,17 +1577,17 @@ def judge_periodic(chk, case):
         if got != elog:
             k = next((j for j, (x, y) in enumerate(zip(got, elog)) if x != y), min(len(got), len(elog)))
             g, w = (got[k] if k < len(got) else None), (elog[k] if k < len(elog) else None)
-            who = "testbench" if ag["tb"] else "added process"
+            who = "a testbench" if ag["tb"] else "an added process"
             if g and w and g[0] == "wake" and w[0] == "wake" and g[2] != w[2]:
                 what = (f"iteration {w[1]} of `async for ... in {_periodic_trigger_name(ag)}` (T = {ag['T']} fs, loop started at "
-                        f"{ag['start']} fs) in a {who} whose body awaits simulated time resumes at {g[2]} fs; the delay restarts when the "
+                        f"{ag['start']} fs) in {who} whose body awaits simulated time resumes at {g[2]} fs; the delay restarts when the "
                         f"combination fires, so it must resume at {w[2]} fs")
             elif w and w[0] == "broken" and (not g or g[0] != "broken"):
-                what = (f"`async for ... in {_periodic_trigger_name(ag)}` (T = {ag['T']} fs) in a {who}: the combination is activated "
+                what = (f"`async for ... in {_periodic_trigger_name(ag)}` (T = {ag['T']} fs) in {who}: the combination is activated "
                         f"again while the body of iteration {w[1] - 1} is running, the next iteration must raise BrokenTrigger at "
                         f"{w[2]} fs; got {g}")
             else:
-                what = (f"`async for ... in {_periodic_trigger_name(ag)}` (T = {ag['T']} fs) in a {who}: record {k} is {g}, "
+                what = (f"`async for ... in {_periodic_trigger_name(ag)}` (T = {ag['T']} fs) in {who}: record {k} is {g}, "
                         f"the event-level specification gives {w}")
             chk.violation(what, dict(base, kind="periodic-spec", agent=i, record=k, impl=got, expected=elog, classes=[]))
             return
